@@ -9,6 +9,7 @@ C14 driver: the objective estimators at `Float`.  Floats as 16-hex-digit bit pat
   cubo <n> <w>*
   klpq <w>*                   klpq2 <S> <K> <w>*         klpq2b <S> <K> <w>*
   entropy <S> <logp>*S <h>*
+  score <N> <logp>*N <logq>*N        klimp <N> <logp>*N <logq>*N   (flattened samples)
   proto <0|1 guarded> <r|n>*  -> draw index answering each request
   guarded <Class>             -> 1 if the generated row has a flag guard in __call__
 -/
@@ -50,6 +51,14 @@ def handle (line : String) : String :=
     match s.toNat?, k.toNat?, floats ws with
     | some S, some K, some l => match rows S K l with | some w => out (klpq2Broadcast w) | none => "bad-op"
     | _, _, _ => "bad-op"
+  | "score" :: n :: ws =>
+    match n.toNat?, floats ws with
+    | some N, some l => if l.length ≠ 2 * N then "bad-op" else out (elboScore (l.take N) (l.drop N))
+    | _, _ => "bad-op"
+  | "klimp" :: n :: ws =>
+    match n.toNat?, floats ws with
+    | some N, some l => if l.length ≠ 2 * N then "bad-op" else out (klpqImportance (l.take N) (l.drop N))
+    | _, _ => "bad-op"
   | "entropy" :: s :: ws =>
     match s.toNat?, floats ws with
     | some S, some l => if l.length < S then "bad-op" else out (elboEntropy (l.take S) (l.drop S))
